@@ -446,7 +446,7 @@ func detRun(r *Reporter, fams []famRun) {
 					continue
 				}
 				desc := fmt.Sprintf("%s on %s: %s [%s]", oneLine(c.Prog), cfg, what, strings.Join(c.Tags, ","))
-				tags := append([]string{"det:" + sym}, c.Tags...)
+				tags := append([]string{"det:" + sym}, c.TagsFor(cfg, nil)...)
 				if id := matchFinding("C08", tags, &cfg, sym); id != "" {
 					r.Known(id, desc)
 					continue
